@@ -6,6 +6,14 @@ package kernel
 
 //@ mode bv
 
+// ASSUMED (the overlay-slice doubling copy is not verified): exactly the size bytes from addr
+// on take the value, every other byte of memory keeps its content
 //@ func Memset(addr uintptr, value byte, size uintptr)
 //@   trusted
 //@   modifies mem
+//@   ensures forall(a, uintptr, mem8(a) == ite(a - addr < size, value, old(mem8(a))))
+
+//@ func Memcopy(src uintptr, dst uintptr, size uintptr)
+//@   trusted
+//@   modifies mem
+//@   ensures forall(a, uintptr, mem8(a) == ite(a - dst < size, old(mem8(src + (a - dst))), old(mem8(a))))
